@@ -84,15 +84,20 @@ void ExpressionBuilder::parse_begin()
     framesMark = frames.size();
 }
 
-void ExpressionBuilder::parse_end(bool failed)
+void ExpressionBuilder::parse_end(bool failed, int results)
 {
     // Every scope opened while parsing a piece of text is closed again by the
     // time it has been parsed - unless an error (even one the grammar recovered
     // from) has skipped the callback that closes it, e.g. in a quantifier body.
     while (frames.size() > framesMark)
         frames.pop();
-    if (!failed)
+    if (!failed) {
+        // An error that the grammar recovered from inside brackets leaves the
+        // operands parsed so far below the result.
+        if (results >= 0)
+            fragments.keep_top(fragmentsMark, results);
         return;
+    }
     // A parse that gave up half way also leaves operands and types behind that
     // the callbacks of the following text would mistake for their own.
     while (fragments.size() > fragmentsMark)
